@@ -15,6 +15,7 @@ type IdealCoefficientSatisfactionLevels struct {
 	criteria             model.Criteria
 	criteriaValuesRanges []utils.ValueRange
 	manager              CoefficientManager
+	exhausted            bool
 }
 
 type CoefficientManager interface {
@@ -33,10 +34,11 @@ func (s *IdealCoefficientSatisfactionLevels) Initialize(dmp *model.DecisionMakin
 		s.criteriaValuesRanges[i] = *model.CriteriaValuesRange(&alternatives, &c)
 	}
 	s.currentValue = s.manager.InitialValue(s)
+	s.exhausted = false
 }
 
 func (s *IdealCoefficientSatisfactionLevels) HasNext() bool {
-	return s.manager.HasNext(s)
+	return !s.exhausted && s.manager.HasNext(s)
 }
 
 func (s *IdealCoefficientSatisfactionLevels) Next() model.Weights {
@@ -50,7 +52,10 @@ func (s *IdealCoefficientSatisfactionLevels) Next() model.Weights {
 			weights[c.Id] = valRange.Max - delta
 		}
 	}
-	s.currentValue = s.manager.UpdateValue(s.currentValue, s.Coefficient)
+	nextValue := s.manager.UpdateValue(s.currentValue, s.Coefficient)
+	// a coefficient below the resolution of the current level would repeat the same level forever
+	s.exhausted = nextValue == s.currentValue
+	s.currentValue = nextValue
 	return weights
 }
 
